@@ -116,10 +116,8 @@ struct Harness {
    }
 };
 
-int main(int argc, char** argv)
+static void body(Ctx& C)
 {
-   auto& C = ctx();
-   C.parse(argc, argv);
    C.rule("a case = (unqualified type T, sequence of non-empty qualifier sets applied successively); non-trivial = length >= 2; "
           "exhaustive part: all sequences of non-empty subsets of {const,volatile,restrict} of length <= 4 (2800) x 40 unqualified "
           "types of every kind, interleaved with unrelated type requests; sampled part: random sequences of length <= 12 including "
@@ -169,6 +167,6 @@ int main(int argc, char** argv)
    H.live_table();
    C.exhaustive(false);
    C.extra("exhaustive_subspace", "\"all 2800 sequences of non-empty subsets of the 3 basic qualifiers of length<=4, for each of 40 unqualified types\"");
-   C.finish();
-   return 0;
 }
+
+int main(int argc, char** argv) { return guarded_main(argc, argv, body); }
